@@ -605,7 +605,9 @@ class Lowerer:
             cargs = [recv]
             for i, a in enumerate(args):
                 pt = ct(params[i]) if i < len(params) else None
+                self.default_arg_src = self.param_with_default(f, i) if a.get('kind') == 'CXXDefaultArgExpr' else None
                 cargs.append(self.arg(a, pt, True))
+            self.default_arg_src = None
             self.cur.callees.add(cname)
             self.rule('repo-call')
             rt = CType(f['type']['qualType'].split('(')[0].strip())
@@ -677,7 +679,11 @@ class Lowerer:
                     # function's own contract: induction on the recursion depth
                     cname += '__rec'; self.rule('recursive call -> <f>__rec (own contract, induction on depth)')
                 params = [p for p in f.get('inner', []) if p.get('kind') == 'ParmVarDecl']
-                cargs = [self.arg(a, ct(params[i]) if i < len(params) else None, True) for i, a in enumerate(args)]
+                cargs = []
+                for i, a in enumerate(args):
+                    self.default_arg_src = self.param_with_default(f, i) if a.get('kind') == 'CXXDefaultArgExpr' else None
+                    cargs.append(self.arg(a, ct(params[i]) if i < len(params) else None, True))
+                self.default_arg_src = None
                 self.cur.callees.add(cname); self.rule('repo-call')
                 rt = CType(f['type']['qualType'].split('(')[0].strip())
                 s = '%s(%s)' % (cname, ', '.join(cargs))
@@ -875,7 +881,26 @@ class Lowerer:
     def e_CXXDefaultArgExpr(self, n):
         inner = n.get('inner')
         if inner: return self.e(inner[0])
+        d = getattr(self, 'default_arg_src', None)
+        if d is not None:
+            init = [c for c in d.get('inner', []) if isinstance(c, dict) and c.get('kind') and not c['kind'].endswith('Comment')]
+            if init:
+                self.rule('default argument of a repo callee taken from its declaration')
+                return self.e(init[0])
         raise Unsupported('default argument of a repo callee is not in the AST dump (line %s)' % src_line(n))
+    def param_with_default(self, f, i):
+        """the ParmVarDecl #i (of this function node or of an earlier declaration of it) that carries the default argument"""
+        seen = set(); cur = f
+        while cur is not None and id(cur) not in seen:
+            seen.add(id(cur))
+            ps = [p for p in cur.get('inner', []) if p.get('kind') == 'ParmVarDecl']
+            if i < len(ps) and any(isinstance(c, dict) and c.get('kind') and not c['kind'].endswith('Comment') for c in ps[i].get('inner', [])): return ps[i]
+            cur = self.ix.decl_by_id.get(cur.get('previousDecl'))
+        for g in self.ix.decl_by_id.values():
+            if g.get('name') == f.get('name') and g.get('type', {}).get('qualType') == f.get('type', {}).get('qualType'):
+                ps = [p for p in g.get('inner', []) if p.get('kind') == 'ParmVarDecl']
+                if i < len(ps) and any(isinstance(c, dict) and c.get('kind') and not c['kind'].endswith('Comment') for c in ps[i].get('inner', [])): return ps[i]
+        return None
     def e_CXXDefaultInitExpr(self, n):
         inner = n.get('inner')
         if inner: return self.e(inner[0])
@@ -1116,7 +1141,17 @@ class Lowerer:
         init = [c for c in v.get('inner', []) if isinstance(c, dict) and c.get('kind') not in ('FullComment',)]
         mark = len(self.temps)
         static = v.get('storageClass') == 'static'
-        if static: self.rule('static-local -> plain local/global (init guard dropped)')
+        if static and init and self.call_dependent(init[0]) and not (t.is_builtin and init[0]['kind'] in ('CXXBoolLiteralExpr', 'IntegerLiteral')):
+            # a function-local static whose initialiser depends on this call's parameters / object / locals is initialised ONCE, by
+            # whichever call comes first: model = unit-level variable + guard flag, both arbitrary at function entry
+            g = '%s_%s' % (self.cur.cname, name)
+            self.static_locals.append('static %s;' % self.value_decl(t, g)); self.static_locals.append('static int %s_initialised;' % g)
+            self.renames[v['id']] = g
+            self.rule('static local with call-dependent initialiser -> unit variable + once-guard')
+            mark2 = len(self.temps)
+            text = ind + 'if (!%s_initialised) { %s = %s; %s_initialised = 1; }\n' % (g, g, self.e(init[0]), g)
+            return self.with_temps(mark2, ind, text)
+        if static: self.rule('static-local with call-independent initialiser -> plain local (same value on every call; init guard dropped)')
         arr = re.search(r'\[(\d+)\]$', t.core_cxx)
         if arr:
             et = CType(t.core_cxx[:arr.start()].strip())
@@ -1168,6 +1203,17 @@ class Lowerer:
         text = ind + '%s = %s;\n' % (self.value_decl(t, name), self.e(init[0]))
         text = self.raii(v, t, name, ind, text)
         return self.with_temps_decl(mark, ind, text)
+
+    def call_dependent(self, n):
+        """does the expression read a parameter, a local variable or *this (so that its value can differ between calls)?"""
+        k = n.get('kind')
+        if k == 'CXXThisExpr': return True
+        if k == 'DeclRefExpr':
+            rd = n.get('referencedDecl', {})
+            if rd.get('kind') == 'ParmVarDecl': return True
+            if rd.get('kind') == 'VarDecl' and rd.get('id') in self.scope_ids: return True
+        if k == 'LambdaExpr': return False
+        return any(self.call_dependent(c) for c in n.get('inner', []) if isinstance(c, dict))
 
     def is_extern_call(self, n):
         while n.get('kind') in ('ImplicitCastExpr', 'ParenExpr', 'ExprWithCleanups'): n = n['inner'][0]
